@@ -198,6 +198,50 @@ static int op_churned(struct wctx *c)
 	dump_to(c->pre, &c->res);
 	return R_OK;
 }
+/* strings whose decoded length sits around the scanner's 32-byte buffer so that the growth
+ * happens inside each kind of append site (plain run, simple escape, \u escape, pair, key) */
+static const char *PB_TAILS[] = {"\\n\\n", "\\u00e9\\u00e9", "\\ud83d\\ude00x", "xx", "\\\\\\\\", "\\ud800x", "\\t\\r\\b\\f", "\\/\\\""};
+#define NPB_TAILS 8
+static char pbdoc[256];
+static const char *pb_doc(int arg)
+{
+	int len = 27 + (arg % 6), tail = (arg / 6) % NPB_TAILS, as_key = arg / (6 * NPB_TAILS);
+	size_t k = 0;
+	if (as_key)
+		pbdoc[k++] = '{';
+	pbdoc[k++] = '"';
+	for (int i = 0; i < len; i++)
+		pbdoc[k++] = (char)('a' + i % 26);
+	k += (size_t)snprintf(pbdoc + k, sizeof pbdoc - k, "%s\"", PB_TAILS[tail]);
+	if (as_key)
+		k += (size_t)snprintf(pbdoc + k, sizeof pbdoc - k, ":1}");
+	pbdoc[k] = 0;
+	return pbdoc;
+}
+static int op_parse_pb(struct wctx *c)
+{
+	const char *t = pb_doc(c->arg);
+	struct json_tokener *tok = json_tokener_new();
+	if (!tok)
+		return R_FAIL;
+	struct json_object *o = json_tokener_parse_ex(tok, t, (int)strlen(t) + 1);
+	enum json_tokener_error e = json_tokener_get_error(tok);
+	json_tokener_free(tok);
+	if (e == json_tokener_error_memory)
+	{
+		json_object_put(o);
+		return R_FAIL;
+	}
+	if (e != json_tokener_success)
+	{
+		json_object_put(o);
+		mc_violation("wrong-failure-channel", "parse under allocation failure ended with status '%s' instead of out of memory", json_tokener_error_desc(e));
+		return R_BAD;
+	}
+	c->out = o;
+	dump_to(o, &c->res);
+	return R_OK;
+}
 static int op_parse_simple(struct wctx *c)
 {
 	/* json_tokener_parse(): NULL on any failure */
@@ -567,7 +611,7 @@ static int op_misc(struct wctx *c)
 }
 
 #define W(name, kind, setup, op, arg) {name, kind, setup, op, arg}
-static const struct wl WL[] = {
+static const struct wl WL_STATIC[] = {
     W("parse_ex long string", "parse", setup_none, op_parse, 0),
     W("parse_ex 34 elements", "parse", setup_none, op_parse, 1),
     W("parse_ex 12 members", "parse", setup_none, op_parse, 2),
@@ -648,7 +692,22 @@ static const struct wl WL[] = {
     W("visit", "misc", setup_doc, op_misc, 1),
     W("get_string of a container", "misc", setup_doc, op_misc, 2),
 };
-#define NWL (int)(sizeof WL / sizeof WL[0])
+#define NWL_STATIC (int)(sizeof WL_STATIC / sizeof WL_STATIC[0])
+#define NPBW (6 * NPB_TAILS * 2)
+static struct wl WL[256];
+static int NWL;
+static char pbnames[NPBW][64];
+static void build_workloads(void)
+{
+	NWL = 0;
+	for (int i = 0; i < NWL_STATIC; i++)
+		WL[NWL++] = WL_STATIC[i];
+	for (int a = 0; a < NPBW; a++)
+	{
+		snprintf(pbnames[a], sizeof pbnames[a], "parse %s of %d bytes + tail#%d", a >= 6 * NPB_TAILS ? "member name" : "string", 27 + a % 6, (a / 6) % NPB_TAILS);
+		WL[NWL++] = (struct wl){pbnames[a], "parse", setup_none, op_parse_pb, a};
+	}
+}
 
 static int cur_w = -1;
 static long cur_k1, cur_k2;
@@ -657,8 +716,8 @@ static void describe(sb_t *o)
 	sb_printf(o, "workload=%d k1=%ld k2=%ld name=\"%s\"", cur_w, cur_k1, cur_k2, cur_w >= 0 ? WL[cur_w].name : "");
 }
 
-static char *baseline[128];
-static long nallocs[128];
+static char *baseline[256];
+static long nallocs[256];
 static sb_t d0, d1, d2;
 
 /* runs workload w with the fault plan; returns the number of allocation calls made by the operation */
@@ -781,6 +840,7 @@ static long run_one(int w, long k1, long k2)
 static void enumerate(void)
 {
 	int pairs_max = mc_tier ? 100000 : 45;
+	build_workloads();
 	for (int w = 0; w < NWL; w++)
 	{
 		/* fault-free run: every shard needs the baseline */
@@ -819,6 +879,7 @@ static int replay(const char *desc)
 	mc_desc_int(desc, "workload", &w);
 	mc_desc_int(desc, "k1", &k1);
 	mc_desc_int(desc, "k2", &k2);
+	build_workloads();
 	run_one((int)w, 0, 0);
 	printf("fault-free: %ld allocation calls, result %.200s\n", nallocs[w], baseline[w] ? baseline[w] : "(failure)");
 	run_one((int)w, k1, k2);
